@@ -64,7 +64,8 @@
       machine agrees with it: the mini evaluator is not wrong where it is defined, it is defined on
       fewer programs — `compile_refines_spec_fragment` says nothing about a program whose
       observable behaviour is finite only because an error cuts an infinite generator.  The
-      theorems below therefore keep `ND (miniRun …)` as the termination hypothesis.
+      theorems below therefore keep `ND (miniRun …)` as the termination hypothesis; it is discharged
+      for programs whose main query calls no function (`compile_refines_Spec_eval_callfree`).
 
   SIDE CONDITIONS of the translation (`tieOK`, decidable; `Prog.WF` from Model/MiniVM.lean):
   function `i` calls only `f0 … fi` (jq's scoping of top-level definitions; the mini development
@@ -73,9 +74,9 @@
   context has no jq-defined builtin called `empty/0` or `error/0` (`NoShadow`; true of the shipped
   builtin.jq: `shipped_builtins_do_not_shadow`).
 
-  Proofs: Proofs/MiniSpec{Rel,Loop,Env,Tie,Lit,Prog}.lean.
+  Proofs: Proofs/MiniSpec{Rel,Loop,Env,Tie,Lit,Prog,Term}.lean.
 -/
-import Gojq.Proofs.MiniSpecProg
+import Gojq.Proofs.MiniSpecTerm
 import Gojq.Generated.BuiltinDefs
 namespace Gojq.C01Tie
 open Gojq Gojq.MiniVM Gojq.MiniSpec
@@ -247,6 +248,27 @@ theorem compile_refines_Spec_eval (p : Prog) (hwf : p.WF) (hord : ordered p = tr
   refine ⟨(miniRun p n s.v).stop.toErr, ?_, by rw [h2, trStop_toErr _ hnd]⟩
   rw [h1]
   exact prog_refines p hwf s.v n hnd
+
+/-- Without function calls the termination hypothesis is discharged: if the main query of `p` calls
+    no function (every loop of the fragment then runs over the finitely many outputs of a
+    sub-query: the mini evaluator completes with fuel `depth + 1`), then for EVERY fuel `N` with which
+    `Spec.eval` on a jq program compiled as `p` ends definitely, the compiled program run on the
+    mini VM returns exactly the output values of `Spec.eval` and then its error or none — a statement
+    about `Spec.eval`, the compiler and the machine only — and fuel `6·(depth + 1)` is enough for
+    `Spec.eval` not to run out of fuel. -/
+theorem compile_refines_Spec_eval_callfree (p : Prog) (hwf : p.WF) (hord : ordered p = true) {bodies : List Query}
+    {main : Query} (htr : TrProg p bodies main) (cfg : Spec.Cfg) (hc : NoShadow cfg)
+    (s : Spec.St) (hs : Clean s) (hcf : callFree p = true) (N : Nat) :
+    (Definite (specRunOf bodies main cfg N s).stop →
+      ∃ e : Option MiniVM.Err,
+        Run (compileProg p) (initCfg (compileProg p) s.v) (specRunOf bodies main cfg N s).vals e ∧
+        (specRunOf bodies main cfg N s).stop = stopOfErr e) ∧
+    (6 * (qDepth p.main + 1) ≤ N → (specRunOf bodies main cfg N s).stop ≠ .fuel) := by
+  have hnd := miniRun_nd_of_callFree p hcf s.v
+  refine ⟨fun hdef => compile_refines_Spec_eval p hwf hord htr cfg hc s hs _ N hnd hdef, fun hN => ?_⟩
+  exact (prog_rel p hwf hord htr cfg hc s hs _ N true (fun _ => hN) hnd).nofuel rfl
+
+example : callFree exSugar = true ∧ callFree exForeach = true ∧ callFree exTryCont = true := by decide
 
 /-- The same about the executable interpreter (`runProg`: iterate `step`, collect what `Next()`
     returns), with the fuel bound: if the mini evaluator completes with fuel `n` and `Spec.eval` is
